@@ -8,6 +8,13 @@ no unit = default unit).  Every rendering must give the results of the baseline 
 and the pastified online monitor (bounded future); the model's `SIv.toSamples` (Lean) must elaborate
 each spelled interval to the same samples.  Bounds that are not multiples of the period must raise
 RTAMTException.  Dense time: harness/dense.py (stream `units-c`).
+
+Order of the configuration calls (`ORDERS`): the sampling period is a configuration of the monitor that is read when the first
+sample is evaluated, so `set_sampling_period` may be called before `parse()`, between `parse()` and `pastify()` or after
+`pastify()` (before the first `update()` / `evaluate()`): the first spelling of every configuration sets it before `parse()`, the
+other spellings (and the non-multiple) take one of the later places.  The outcome (values, or the rejection of a non-multiple)
+must not depend on it - in particular a bound is measured in the period that is configured when the monitor starts, not in the
+one (1 s by default) that happens to be configured when `pastify()` is called.
 """
 from decimal import Decimal
 from fractions import Fraction
@@ -17,7 +24,8 @@ from ..engine import Violation, Ctx
 
 RULE = ("core formulas with 1-3 bounded operators (bounds 0..4 samples); 3 random configurations (default unit, period, period unit) "
         "x 3 random spellings per configuration; monitors: offline, online (past), pastified online (bounded future); plus one "
-        "non-multiple bound per formula. distinct by (formula, rendering, data); non-trivial when the baseline result is not constant +-inf.")
+        "non-multiple bound per formula; set_sampling_period before parse() (first spelling of a configuration), after parse() or "
+        "after pastify() (the other spellings, the non-multiple). distinct by (formula, rendering, data); non-trivial when the baseline result is not constant +-inf.")
 EXPLANATION = ("theorems: C08_normalize_factor (samples x period = written duration), C08_non_multiple_rejected, C08_interval_eq, "
                "C08_equal_durations (same durations => same elaborated formula, hence identical results of every monitor and of "
                "pastify: C08_results_identical), C08_spellings, C08_dense. Correspondence: metamorphic across renderings on the "
@@ -131,19 +139,60 @@ def render(rng, f, unit, pns, record, unless=False, consts=None):
     return "out = " + go(f)
 
 
-def run_monitor(monitor, text, vs, data, n, unit, period, punit, consts=(), limit=8.0):
+# where set_sampling_period is called; per monitor the places that exist (the first one is the one of harness/impl.py)
+ORDERS = {"offd": ["before-parse", "after-parse"], "ond": ["before-parse", "after-parse"],
+          "past": ["before-parse", "after-parse", "after-pastify"]}
+
+
+def later_order(rng, monitor):
+    """One of the places after parse() (for the pastified monitor mostly the last one, after pastify())."""
+    if monitor == "past":
+        return "after-pastify" if rng.random() < 0.6 else "after-parse"
+    return "after-parse"
+
+
+def run_ordered(monitor, text, vs, data, n, unit, sampling, consts, order, limit):
+    """The calls of impl.eval_offline_discrete / impl.run_online_discrete with set_sampling_period moved behind parse() or
+    behind pastify(); everything else (class of the specification, second pastify() of one text in four) as there."""
+    def go():
+        spec = impl.make_spec("offd" if monitor == "offd" else "ond", text, vs, consts=list(consts), unit=unit)
+        spec.parse()
+        if order == "after-parse":
+            spec.set_sampling_period(*sampling)
+        if monitor == "past":
+            spec.pastify()
+            if impl.twice(text):
+                spec.pastify()
+        if order == "after-pastify":
+            spec.set_sampling_period(*sampling)
+        if monitor == "offd":
+            ds = {"time": list(range(n))}
+            for v in data:
+                ds[v] = list(data[v])
+            return spec.evaluate(ds)
+        return [spec.update(i, [(v, data[v][i]) for v in data]) for i in range(n)]
+    return impl.guarded(go, limit, True)
+
+
+def run_monitor(monitor, text, vs, data, n, unit, period, punit, consts=(), limit=8.0, order="before-parse"):
     per = int(period) if period.denominator == 1 else float(period)
+    if order not in ORDERS[monitor]:
+        raise common.HarnessError("no place %r for set_sampling_period on the %s monitor" % (order, monitor))
     # the baseline rendering of the same durations evaluates in milliseconds: a rendering that does not
     # come back within 8 s (e.g. a bound blown up by a wrong unit) is reported as an outcome, not a harness error
     kw = dict(unit=unit, sampling=(per, punit, 0.1), limit=limit, timeout_is_outcome=True, consts=list(consts))
-    if monitor == "offd":
+    if order != "before-parse":
+        o = run_ordered(monitor, text, vs, data, n, unit, (per, punit, 0.1), consts, order, limit)
+        if monitor == "offd" and o[0] == "ok":
+            o = ("ok", [p[1] for p in o[1]])
+    elif monitor == "offd":
         o = impl.eval_offline_discrete(text, vs, data, n, **kw)
         o = o if o[0] != "ok" else ("ok", [p[1] for p in o[1]])
     else:
         o = impl.run_online_discrete(text, vs, data, n, pastify=(monitor == "past"), **kw)
     if o[0] == "other" and len(o) > 1 and o[1] == "Timeout" and limit < 60.0:
         # a busy machine is not an outcome: the call is repeated once with a generous limit before "does not return" is believed
-        return run_monitor(monitor, text, vs, data, n, unit, period, punit, consts, limit=90.0)
+        return run_monitor(monitor, text, vs, data, n, unit, period, punit, consts, limit=90.0, order=order)
     return o
 
 
@@ -181,6 +230,10 @@ def frac_txt(s):
     return "%d/%d" % (q.numerator, q.denominator)
 
 
+def stream_of(order):
+    return "units" if order == "before-parse" else "units/config-order"
+
+
 def check_case(ctx, case, rng):
     f, n, data, vs, mon = case["f"], case["n"], case["data"], case["decl"], case["monitor"]
     unl = bool(case.get("unless"))
@@ -198,23 +251,27 @@ def check_case(ctx, case, rng):
     diff = None
     for (unit, period, punit) in configs(rng):
         pns = period * NS[punit]
-        for _ in range(3):
+        for k in range(3):
             rec, consts = [], []
             text = render(rng, f, unit, pns, rec, unl, consts)
+            order = "before-parse" if k == 0 else later_order(rng, mon)
             ctx.evaluations += 1
             ctx.count("monitor:" + mon)
+            ctx.count("period-set:" + order)
             if unl:
                 ctx.count("unless-sugar")
             if consts:
                 ctx.count("constant-bounds")
-            out = run_monitor(mon, text, vs, data, n, unit, period, punit, consts)
-            rep2 = dict(rep, spec=text, unit=unit, period=str(period), period_unit=punit, impl=out, consts=[list(c) for c in consts])
+            out = run_monitor(mon, text, vs, data, n, unit, period, punit, consts, order=order)
+            rep2 = dict(rep, spec=text, unit=unit, period=str(period), period_unit=punit, order=order, impl=out,
+                        consts=[list(c) for c in consts])
+            where = "" if order == "before-parse" else ", set %s()" % order.replace("-", " ")
             if out[0] != "ok":
-                return Violation("%s monitor: rendering with the same durations raised %r (unit=%s, period=%s %s): %s"
-                                 % (mon, out[1:], unit, period, punit, text), rep2, stream="units"), diff
+                return Violation("%s monitor: rendering with the same durations raised %r (unit=%s, period=%s %s%s): %s"
+                                 % (mon, out[1:], unit, period, punit, where, text), rep2, stream=stream_of(order)), diff
             if not same_vals(out[1], base[1]):
-                return Violation("%s monitor: results differ between two renderings with the same durations (unit=%s, period=%s %s): "
-                                 "%s  vs  %s" % (mon, unit, period, punit, text, base_text), rep2, stream="units"), diff
+                return Violation("%s monitor: results differ between two renderings with the same durations (unit=%s, period=%s %s%s): "
+                                 "%s  vs  %s" % (mon, unit, period, punit, where, text, base_text), rep2, stream=stream_of(order)), diff
             # model elaboration of every spelled interval
             ms = model_intervals([(unit, period, punit, sp) for (_, _, sp) in rec])
             for (a, b, sp), m in zip(rec, ms):
@@ -237,13 +294,16 @@ def check_case(ctx, case, rng):
     old = "[%s%s,%s%s]" % sp
     new = "[%s%s,%s%s]" % (dec(first[2] * pns / NS[u]), u, dec(bad_b / NS[u]), u)
     text_bad = text.replace(old, new, 1)
+    order = rng.choice(ORDERS[mon])
     ctx.evaluations += 1
     ctx.count("non-multiple")
-    out = run_monitor(mon, text_bad, vs, data, n, unit, period, punit)
-    rep3 = dict(rep, spec=text_bad, unit=unit, period=str(period), period_unit=punit, impl=out)
+    ctx.count("non-multiple/period-set:" + order)
+    out = run_monitor(mon, text_bad, vs, data, n, unit, period, punit, order=order)
+    rep3 = dict(rep, kind="non-multiple", spec=text_bad, unit=unit, period=str(period), period_unit=punit, order=order, impl=out)
     if out[0] != "rtamt":
-        return Violation("bound %s is not a multiple of the sampling period %s %s but the %s monitor did not raise RTAMTException "
-                         "(got %r): %s" % (new, period, punit, mon, out[:2], text_bad), rep3, stream="units/non-multiple"), diff
+        return Violation("bound %s is not a multiple of the sampling period %s %s (set %s()) but the %s monitor did not raise "
+                         "RTAMTException (got %r): %s" % (new, period, punit, order.replace("-", " "), mon, out[:2], text_bad), rep3,
+                         stream="units/non-multiple"), diff
     m = model_intervals([(unit, period, punit, (dec(first[2] * pns / NS[u]), u, dec(bad_b / NS[u]), u))])[0]
     if not m.startswith("err rtamt"):
         diff = Violation("model accepts the non-multiple %s: %r" % (new, m), rep3, failing_input=False, stream="units/model")
@@ -345,8 +405,8 @@ def replay(ctx, obj):
     vs = sorted(data)
     base = run_monitor(obj["monitor"], obj["baseline_spec"], vs, data, obj["n"], "s", Fraction(1), "s")
     out = run_monitor(obj["monitor"], obj["spec"], vs, data, obj["n"], obj["unit"], Fraction(obj["period"]), obj["period_unit"],
-                      [tuple(c) for c in obj.get("consts") or []])
-    if "non-multiple" in obj.get("what", "") or (obj.get("impl") and obj["impl"][0] == "ok" and "not a multiple" in obj.get("what", "")):
+                      [tuple(c) for c in obj.get("consts") or []], order=obj.get("order") or "before-parse")
+    if obj.get("kind") == "non-multiple" or "non-multiple" in obj.get("what", "") or (obj.get("impl") and obj["impl"][0] == "ok" and "not a multiple" in obj.get("what", "")):
         return (out[0] == "rtamt"), "non-multiple bound: outcome %r" % (out[:2],)
     ok = base[0] == "ok" and out[0] == "ok" and same_vals(base[1], out[1])
     return ok, ("renderings agree" if ok else "renderings with the same durations disagree: %r vs %r" % (out, base))
